@@ -342,7 +342,15 @@ func TestRepeatPrograms(t *testing.T) {
 	rapid.Check(t, func(t *rapid.T) {
 		var c progCase
 		labels := []string{}
-		switch rapid.IntRange(0, 7).Draw(t, "kind") {
+		switch rapid.IntRange(0, 8).Draw(t, "kind") {
+		case 8: // in-place number methods reaching values written as literals: the next run of the
+			// same text starts from the same literals
+			a := rapid.IntRange(0, 9999).Draw(t, "lit-a")
+			b := rapid.IntRange(0, 9999).Draw(t, "lit-b")
+			m1 := rapid.SampledFrom([]string{"自增", "自减"}).Draw(t, "m1")
+			m2 := rapid.SampledFrom([]string{"自增", "自减"}).Draw(t, "m2")
+			c.Src = fmt.Sprintf("如何改？\n    输入基数\n    以基数（%s：10）\n    输出基数\n令表 = 【“甲”，“乙”，“丙”，“丁”】\n（显示：（改：%d）、{以%d（%s：3）}、%d、%d）\n输出【（改：%d），表#{%d - %d + 1}】", m1, a, b, m2, a, b, a, b, b)
+			labels = append(labels, "in-place-method-on-literal")
 		case 6, 7: // dictionaries holding values that cannot be compared (objects, methods) next to
 			// entries that differ: whether the answer is an error or 假 must not depend on
 			// which entry is examined first
